@@ -26,7 +26,7 @@ var c14Entities = []struct{ id, neutral, class string }{
 }
 
 var c14Pools = map[string][]string{
-	"pkg":     {"err", "cleanup", "gamma", "res", "alib", "agg", "val", "string", "len", "argT"},
+	"pkg":     {"err", "cleanup", "gamma", "res", "alib", "agg", "val", "string", "len", "argT", "error", "nil"},
 	"libtype": {"Err", "Cleanup", "Type", "Func", "Select", "String", "Error", "Nil", "Len", "Gamma", "Gamma2", "Alib", "URLThing", "Ünï", "Alpha2", "Beta"},
 	"type":    {"Err", "Cleanup", "Cleanup2", "Type", "Func", "Select", "String", "Error", "Nil", "Len", "Alpha", "Alpha2", "Alpha1", "alib", "AlibAlpha", "err", "cleanup", "Ünï", "URLThing"},
 	"libfunc": {"Err", "Cleanup", "NewGamma", "Alpha", "Init"},
@@ -307,7 +307,7 @@ func checkC14(c *h.Check) {
 		c.Internalf("vacuous: only %d parameter-pair namings are expressible", paramPairs)
 	}
 	results := c.JudgeAll(cases)
-	stdCoverage(c, cases, results, fmt.Sprintf("parameter pairs whose chosen and derived names meet (blank next to the name wire derives for it, a renamed parameter next to its second choice); a fixed rich program (two imported packages, error+cleanup chain across packages, struct provider, value, two injector parameters, a named set, two injectors) whose %d nameable entities (package names, type names in three packages, provider names, field names, parameter names incl. blank and absent, set variable, an extra package-level var/func/type/const) are each renamed to every name of an adversarial pool (err, err2, cleanup, cleanupN, the first and second choice wire derives for each local, import names and name2, _wire<T>Value(2), type names that unexport to keywords and predeclared identifiers, numeric-suffix families, non-ASCII, UPPERWord); deviation bound %d (pairs: quick over the names wire itself invents - err, err2, cleanup, cleanup2 and their exported forms; thorough over all collision-relevant names); plus both imported packages under one package name with same-named types and providers. Namings under which the user's own program would not compile (redeclarations) are predicted and skipped. Oracle (differential against the name-independent model): accepted, compiles, and every scenario incl. every failure point wires, unwinds and returns exactly as under the neutral naming. Distinct = distinct rendered source.", len(c14Entities), bound))
+	stdCoverage(c, cases, results, fmt.Sprintf("parameter pairs whose chosen and derived names meet (blank next to the name wire derives for it, a renamed parameter next to its second choice); a fixed rich program (two imported packages, error+cleanup chain across packages, struct provider, value, two injector parameters, a named set, two injectors) whose %d nameable entities (package names, type names in three packages, provider names, field names, parameter names incl. blank and absent, set variable, an extra package-level var/func/type/const) are each renamed to every name of an adversarial pool (err, err2, cleanup, cleanupN, the first and second choice wire derives for each local, import names and name2, packages named like the predeclared identifiers the generated code itself uses (error, nil), _wire<T>Value(2), type names that unexport to keywords and predeclared identifiers, numeric-suffix families, non-ASCII, UPPERWord); deviation bound %d (pairs: quick over the names wire itself invents - err, err2, cleanup, cleanup2 and their exported forms; thorough over all collision-relevant names); plus both imported packages under one package name with same-named types and providers. Namings under which the user's own program would not compile (redeclarations) are predicted and skipped. Oracle (differential against the name-independent model): accepted, compiles, and every scenario incl. every failure point wires, unwinds and returns exactly as under the neutral naming. Distinct = distinct rendered source.", len(c14Entities), bound))
 	c.Coverage["skipped_illtyped"] = skipped
 	c.Coverage["explorer"] = map[string]interface{}{"executions": st.Executions, "bound": bound}
 	sampleCase(c, cases, results)
